@@ -1657,23 +1657,114 @@ def proto_gate_lists(rng):
             sorted(rng.sample(PROTO_GATES, rng.randint(3, 8))), sorted(rng.sample(PROTO_GATES, rng.randint(3, 8)))]
 
 
-def proto_device(mods, qubits, pairs, gate_names):
-    """GridDevice.from_proto of a DeviceSpecification with the given qubits, symmetric two-qubit targets and valid gates."""
-    cg = mods['cirq_google']
+SYM, SUBSET = 'SYMMETRIC', 'SUBSET_PERMUTATION'
+CONVENTIONAL = '2_qubit_targets'
+SPEC_LAYOUTS = ['conventional', 'renamed', 'unnamed', 'split_keep_name', 'split_other_names', 'same_name_twice', 'empty_conventional', 'reversed_ids',
+                'duplicated', 'decoys', 'measurement_first']
+OTHER_NAMES = ['grid_couplings', 'couplings', 'two_qubit_targets', 'cz_targets', 'sym_pairs', '2_qubit_targets_b']
+
+
+def spec_target_sets(rng, layout, qubits, pairs):
+    """valid_targets of a DeviceSpecification as a list of (name, ordering, [tuples of qubits]).  device.proto defines the couplings by
+    the ORDERING of a target set ("Two-qubit gates can be applied to all two-element targets in a TargetSet of this type", SYMMETRIC),
+    not by its name, so the same couplings are written under the conventional name, under another or no name, distributed over
+    several symmetric sets, with the ids of a pair in either order, listed twice, and next to target sets that are no couplings:
+    measurement groups (SUBSET_PERMUTATION, some with two qubits) and symmetric targets of one or three qubits."""
+    pairs = [tuple(p) for p in pairs]
+    rows = sorted({q.row for q in qubits})
+    meas = ('meas_targets', SUBSET, [tuple(q for q in qubits if q.row == r) for r in rows])
+    a, b = [p for p in pairs if p[0].row == p[1].row], [p for p in pairs if p[0].row != p[1].row]
+    if not a or not b:
+        k = (len(pairs) + 1) // 2
+        a, b = pairs[:k], pairs[k:]
+    other = lambda: rng.choice(OTHER_NAMES)
+    if layout == 'conventional':
+        return [(CONVENTIONAL, SYM, pairs), meas]
+    if layout == 'renamed':
+        return [(other(), SYM, pairs), meas]
+    if layout == 'unnamed':
+        return [('', SYM, pairs)]
+    if layout == 'split_keep_name':
+        return [(CONVENTIONAL, SYM, a), meas, ('vertical_couplings', SYM, b)]
+    if layout == 'split_other_names':
+        return [('row_couplings', SYM, a), ('column_couplings', SYM, b), meas]
+    if layout == 'same_name_twice':
+        return [(CONVENTIONAL, SYM, a), (CONVENTIONAL, SYM, b)]
+    if layout == 'empty_conventional':
+        return [(CONVENTIONAL, SYM, []), ('active_couplings', SYM, pairs), meas]
+    if layout == 'reversed_ids':
+        return [(rng.choice([CONVENTIONAL, other()]), SYM, [p[::-1] if i % 3 != 2 else p for i, p in enumerate(pairs)]), meas]
+    if layout == 'duplicated':
+        return [(CONVENTIONAL, SYM, pairs + [p[::-1] for p in pairs[:2]]), (other(), SYM, [p[::-1] for p in b] + a[:1])]
+    if layout == 'decoys':
+        # groups of two qubits that share a measurement line but no coupler, single-qubit targets, three-qubit targets
+        listed = {frozenset(p) for p in pairs}
+        non = [(x, y) for x in qubits for y in qubits if x < y and frozenset((x, y)) not in listed]
+        groups = rng.sample(non, min(2, len(non))) + [tuple(qubits[:1])]
+        sets = [('meas_targets', SUBSET, groups), ('1_qubit_targets', SYM, [(q,) for q in qubits])]
+        if len(qubits) >= 3:
+            sets.append(('3_qubit_targets', SYM, [tuple(rng.sample(qubits, 3))]))
+        sets.insert(rng.randrange(len(sets) + 1), (rng.choice([CONVENTIONAL, other()]), SYM, pairs))
+        return sets
+    if layout == 'measurement_first':
+        return [meas, ('1_qubit_targets', SYM, [(q,) for q in qubits]), (other(), SYM, a), (CONVENTIONAL, SYM, b)]
+    raise KeyError(layout)
+
+
+def spec_couplings(target_sets):
+    """The couplings a specification lists, by device.proto: the two-element targets of its SYMMETRIC target sets."""
+    return {frozenset(t) for _, ordering, targets in target_sets if ordering == SYM for t in targets if len(t) == 2}
+
+
+def show_spec(qubits, target_sets, gate_names):
+    sq = lambda q: f'({q.row},{q.col})'
+    sets = '; '.join(f'{name!r}/{ordering}: [{", ".join("-".join(sq(q) for q in t) for t in targets)}]' for name, ordering, targets in target_sets)
+    return f'DeviceSpecification(valid_qubits=[{", ".join(sq(q) for q in qubits)}], valid_targets=[{sets}], valid_gates={list(gate_names)})'
+
+
+def build_spec(mods, qubits, target_sets, gate_names, raw_qubits=None):
     from cirq_google.api import v2
     spec = v2.device_pb2.DeviceSpecification()
-    spec.valid_qubits.extend(v2.qubit_to_proto_id(q) for q in qubits)
-    targets = spec.valid_targets.add()
-    targets.name = '2_qubit_targets'
-    targets.target_ordering = v2.device_pb2.TargetSet.SYMMETRIC
-    for pair in pairs:
-        t = targets.targets.add()
-        t.ids.extend(v2.qubit_to_proto_id(q) for q in pair)
+    spec.valid_qubits.extend(raw_qubits if raw_qubits is not None else [v2.qubit_to_proto_id(q) for q in qubits])
+    for name, ordering, tlist in target_sets:
+        targets = spec.valid_targets.add()
+        targets.name = name
+        targets.target_ordering = getattr(v2.device_pb2.TargetSet, ordering)
+        for target in tlist:
+            t = targets.targets.add()
+            t.ids.extend(v2.qubit_to_proto_id(q) for q in target)
     for name in gate_names:
         gate = spec.valid_gates.add()
         getattr(gate, name).SetInParent()
         gate.gate_duration_picos = 1000
-    return cg.GridDevice.from_proto(spec)
+    return spec
+
+
+def proto_device(mods, qubits, pairs, gate_names, target_sets=None):
+    """GridDevice.from_proto of a DeviceSpecification with the given qubits, target sets (default: the couplings `pairs` as one
+    symmetric set under the conventional name) and valid gates."""
+    if target_sets is None:
+        target_sets = [(CONVENTIONAL, SYM, [tuple(p) for p in pairs])]
+    return mods['cirq_google'].GridDevice.from_proto(build_spec(mods, qubits, target_sets, gate_names))
+
+
+def metadata_problem(device, qubit_set, pairset, target_sets=None):
+    """The qubits / couplings the device reports against the ones it was built from (None when they agree)."""
+    md = device.metadata
+    sq = lambda q: f'({q.row},{q.col})'
+    sp = lambda ps: '[' + ', '.join('-'.join(sq(q) for q in sorted(p)) for p in sorted(ps, key=sorted)) + ']'
+    if set(md.qubit_set) != set(qubit_set):
+        return 'metadata-qubits', f'metadata.qubit_set = [{", ".join(sq(q) for q in sorted(md.qubit_set))}] although the valid qubits are [{", ".join(sq(q) for q in sorted(qubit_set))}]'
+    got = {frozenset(p) for p in md.qubit_pairs}
+    if got != pairset:
+        where = sorted({repr(n) for n, o, ts in target_sets or () if o == SYM and any(frozenset(t) in pairset - got for t in ts)})
+        return 'metadata-pairs', ((f'couplings {sp(pairset - got)} are missing from metadata.qubit_pairs' + (f' although the SYMMETRIC target set(s) {", ".join(where)} list them' if where else '')
+                                   if pairset - got else f'metadata.qubit_pairs has the couplings {sp(got - pairset)} that were never listed')
+                                  + f'; reported {sp(got)}, expected {sp(pairset)}')
+    edges = {frozenset(e) for e in md.nx_graph.edges}
+    if edges != pairset:
+        return 'metadata-graph', f'metadata.nx_graph has the edges {sp(edges)} although the couplings are {sp(pairset)}'
+    return None
 
 
 def device_circuits(mods, rng, kind, gateset, qubit_set, pairset, cand, seen_ops, big, cops=()):
@@ -1806,11 +1897,14 @@ def device_stream(ctx, mods, n_specs, ops_per_spec):
     fixed = fixed_grid_gatesets(mods)
     protos = proto_gate_lists(rng)
     specs = [(['grid', 'grid', 'grid', 'aqt', 'pasqal', 'pasqal_virtual', 'ionq'][si % 7], None) for si in range(n_specs)]
-    specs += [('grid', ('gateset', g)) for g in fixed] + [('grid', ('proto', names)) for names in protos] + [('grid', ('named', 'Sycamore'))]
+    # the DeviceSpecification protos are written in different shapes of valid_targets (three fixed, the others drawn)
+    layouts = ['split_keep_name', 'decoys', 'conventional'] + [rng.choice(SPEC_LAYOUTS) for _ in protos[3:]]
+    specs += [('grid', ('gateset', g)) for g in fixed] + [('grid', ('proto', names, lay)) for names, lay in zip(protos, layouts)] + [('grid', ('named', 'Sycamore'))]
     for kind, variant in specs:
         qt = QubitTable()
         cgs = None
         model = True
+        target_sets = None
         if kind == 'grid':
             allq = [cirq.GridQubit(r, c) for r in range(2) for c in range(3)]
             dq = sorted(rng.sample(allq, rng.randint(3, 6)))
@@ -1830,14 +1924,29 @@ def device_stream(ctx, mods, n_specs, ops_per_spec):
                 elif variant[0] == 'gateset':
                     device = cg.GridDevice(cirq.GridDeviceMetadata(qubit_pairs=pairs, gateset=variant[1], all_qubits=dq))
                 else:
-                    device = proto_device(mods, dq, pairs, variant[1])
+                    target_sets = spec_target_sets(rng, variant[2], dq, pairs)
+                    device = proto_device(mods, dq, pairs, variant[1], target_sets)
             except Exception as e:
                 ctx.mark_broken('harness:grid-device', f'{type(e).__name__}: {e}')
                 continue
             cand = allq + [cirq.GridQubit(5, 5), cirq.LineQubit(0)]
             rule = 'PairsTwoQubit'
-            pairset = {frozenset(p) for p in device.metadata.qubit_pairs}
-            qubit_set = set(device.metadata.qubit_set)
+            if variant is not None and variant[0] == 'named':
+                pairset = {frozenset(p) for p in device.metadata.qubit_pairs}
+                qubit_set = set(device.metadata.qubit_set)
+            else:
+                # judged against what the device was built from (the specification's symmetric target sets / the constructor's
+                # arguments), not against what the device reports about itself
+                pairset = spec_couplings(target_sets) if target_sets is not None else {frozenset(p) for p in pairs}
+                qubit_set = set(dq)
+                prob = metadata_problem(device, qubit_set, pairset, target_sets)
+                ctx.count('device:grid:metadata', [repr(dq), repr(target_sets if target_sets is not None else pairs)], bool(pairset))
+                if prob is not None:
+                    built = (f'GridDevice.from_proto({show_spec(dq, target_sets, variant[1])})' if target_sets is not None else
+                             f'GridDevice(GridDeviceMetadata(qubit_pairs={pairs}, all_qubits={dq}, gateset=...))')
+                    ctx.violation(f'device:grid:{"spec:" if target_sets is not None else ""}{prob[0]}', f'{prob[1]}; device = {built}'[:1100],
+                                  dict(kind='device_spec', qubits=repr(dq), target_sets=repr(target_sets), gate_names=list(variant[1])) if target_sets is not None else
+                                  dict(kind='device_metadata', qubits=repr(dq), pairs=repr(pairs)))
             gs_obj = device.metadata.gateset
             gate_only = False
         elif kind == 'aqt':
@@ -1884,6 +1993,7 @@ def device_stream(ctx, mods, n_specs, ops_per_spec):
         acc_ops, seen_ops = [], []
         dev_rec = dict(kind='device', device=kind, qubits=repr(sorted(qubit_set)), pairs=repr(sorted(map(sorted, pairset))), gateset=repr(gs_obj),
                        unroll=bool(gs_obj._unroll_circuit_op), proto_gates=list(variant[1]) if variant is not None and variant[0] == 'proto' else None,
+                       target_sets=repr(target_sets) if target_sets is not None else None,
                        named=variant[1] if variant is not None and variant[0] == 'named' else None)
         dop_of = lambda op: (f'(mkDop {(f"(OGate {d.gate(op.gate)} [])" if kind == "aqt" and op.gate is not None else d.op(op))} '
                              f'{gates.nlist([qt(q) for q in op.qubits])} {"true" if isinstance(op, cirq.GateOperation) else "false"})')
@@ -1924,7 +2034,8 @@ def device_stream(ctx, mods, n_specs, ops_per_spec):
                          if gate_less else repr(op)[:160])
                 ctx.violation(sig, (f'{variant[1] if variant is not None and variant[0] == "named" else kind} device validate_operation({shown}) '
                                     f'{"accepts" if got is True else "rejects (" + str(got) + ")"} although the operation is: {why}'
-                                    + (' (every operation of its mapped circuit is in the gateset; the device qubits and pairs are respected)' if gate_less and want else ''))[:700],
+                                    + (' (every operation of its mapped circuit is in the gateset; the device qubits and pairs are respected)' if gate_less and want else ''))[:700]
+                                   + (f'; device = GridDevice.from_proto({show_spec(dq, target_sets, variant[1])})' if target_sets is not None else '')[:600],
                               dict(dev_rec, radius=radius if kind == 'pasqal_virtual' else None, op=repr(op)))
             seen_ops.append(op)
             if not model:
@@ -1962,7 +2073,8 @@ def device_stream(ctx, mods, n_specs, ops_per_spec):
                                   f'device:{kind}:circuit:{"circuit-op:" if has_cop else ""}{"accepts" if got is True else "rejects"}:{clause}',
                                   (f'{kind} device validate_circuit {"accepts" if got is True else "rejects (" + str(got) + ")"} the circuit '
                                    f'{[show_op(cirq, o) if has_cop else repr(o)[:120] for o in ordered]} although {culprit}'
-                                   + (' (a CircuitOperation stands for its mapped circuit: parameter resolver, repetitions / inversion, qubit map applied)' if has_cop and want else ''))[:700],
+                                   + (' (a CircuitOperation stands for its mapped circuit: parameter resolver, repetitions / inversion, qubit map applied)' if has_cop and want else ''))[:700]
+                                  + (f'; device = GridDevice.from_proto({show_spec(dq, target_sets, variant[1])})' if target_sets is not None else '')[:600],
                                   dict(dev_rec, ops=[repr(o) for o in ordered], moments=repr(circ)))
                 if model and len(rows) < 240:
                     rows.append(f'Bool.eqb (device_accepts_circuit DEV [{"; ".join(dop_of(o) for o in ordered)}]) {"true" if want else "false"}')
@@ -1986,6 +2098,190 @@ def device_stream(ctx, mods, n_specs, ops_per_spec):
         for idx in coq.parse_nat_list(coq.parse_evals(out)[0]):
             kind, op, ans = meta[idx]
             ctx.mark_broken('correspondence:device-model', f'{kind}: the device model disagrees with the statement evaluated on the real objects for {repr(op)[:300]} ({ans})')
+
+
+# what each valid_gates entry of a DeviceSpecification stands for (device.proto: Sycamore, SqrtISwap, SqrtISwapInv, CZ, CZPowGate, PhasedXZ,
+# VirtualZPow, PhysicalZPow, Measurement, Wait, FSimViaModel, TwoPulseFSim, Reset): a representative operation per entry and the entries
+# that make it acceptable
+def spec_gate_representatives(mods):
+    cirq, cg = mods['cirq'], mods['cirq_google']
+    fs = cirq.FSimGate(theta=0.3, phi=0.2)
+    return [('syc', cg.SYC, ['syc']), ('sqrt_iswap', cirq.SQRT_ISWAP, ['sqrt_iswap']), ('sqrt_iswap_inv', cirq.SQRT_ISWAP_INV, ['sqrt_iswap_inv']),
+            ('cz', cirq.CZ, ['cz', 'cz_pow_gate']), ('cz_pow_gate', cirq.CZ ** 0.3, ['cz_pow_gate']),
+            ('phased_xz', cirq.PhasedXZGate(x_exponent=0.3, z_exponent=0.1, axis_phase_exponent=0.2), ['phased_xz']),
+            ('phased_xz', cirq.X ** 0.5, ['phased_xz']), ('phased_xz', cirq.PhasedXPowGate(phase_exponent=0.2, exponent=0.4), ['phased_xz']),
+            ('virtual_zpow', cirq.Z ** 0.3, ['virtual_zpow']), ('physical_zpow', (cirq.Z ** 0.3, cg.PhysicalZTag()), ['physical_zpow']),
+            ('meas', cirq.MeasurementGate(1, 'm'), ['meas']), ('meas', cirq.MeasurementGate(2, 'mm'), ['meas']),
+            ('wait', cirq.WaitGate(cirq.Duration(nanos=5)), ['wait']), ('wait', cirq.WaitGate(cirq.Duration(nanos=5), num_qubits=2), ['wait']),
+            ('fsim_via_model', (fs, cg.FSimViaModelTag()), ['fsim_via_model']), ('two_pulse_fsim', (fs, cg.TwoPulseFSimTag()), ['two_pulse_fsim']),
+            ('fsim untagged', fs, []), ('reset', cirq.ResetChannel(), ['reset']), ('cnot', cirq.CNOT, [])]
+
+
+SPEC_GATE_LISTS = [['cz_pow_gate', 'phased_xz', 'virtual_zpow', 'meas', 'wait'], ['cz', 'phased_xz', 'meas'],
+                   ['cz_pow_gate', 'phased_xz', 'physical_zpow', 'fsim_via_model', 'meas', 'reset'], ['sqrt_iswap', 'syc', 'phased_xz', 'two_pulse_fsim', 'wait']]
+
+
+def place_rep(cirq, rep, qs):
+    g, tags = (rep[0], rep[1:]) if isinstance(rep, tuple) else (rep, ())
+    op = g.on(*qs[:cirq.num_qubits(g)])
+    return op.with_tags(*tags) if tags else op
+
+
+def spec_statement(cirq, reps, gate_names, op, rep_index, qubit_set, pairset):
+    """The statement for a device built from a specification, from the specification alone: the gate is one of the valid gates, the
+    qubits are valid qubits and a two-qubit gate (measurement and wait excepted) acts on a listed coupling."""
+    if not any(n in gate_names for n in reps[rep_index][2]):
+        return False, 'gate not specified'
+    if any(q not in qubit_set for q in op.qubits):
+        return False, 'qubit not on device'
+    if len(op.qubits) == 2 and not isinstance(op.gate, (cirq.MeasurementGate, cirq.WaitGate)) and frozenset(op.qubits) not in pairset:
+        return False, 'pair not allowed'
+    return True, 'accepted'
+
+
+def device_answer(f):
+    try:
+        f()
+        return True
+    except ValueError:
+        return False
+    except Exception as e:
+        return type(e).__name__
+
+
+def spec_sweep_cases(mods, rng, full):
+    """(layout, qubits, pairs, gate names) of the specification sweep.  Every layout of valid_targets on a fixed patch (2x3 grid, one
+    adjacent pair without coupler) on every run and for every VERIF_SEED, and on a drawn patch; the valid_gates lists rotate."""
+    cirq = mods['cirq']
+    allq = [cirq.GridQubit(r, c) for r in range(2) for c in range(3)]
+    adj = [(a, b) for a in allq for b in allq if a < b and a.is_adjacent(b)]
+    fixed_pairs = [p for p in adj if p != (cirq.GridQubit(0, 1), cirq.GridQubit(1, 1))]
+    cases = []
+    for i, lay in enumerate(SPEC_LAYOUTS):
+        cases.append((lay, allq, fixed_pairs, SPEC_GATE_LISTS[i % 2]))
+        for j in range(3 if full else 1):
+            dq = sorted(rng.sample(allq, rng.randint(4, 6)))
+            padj = [(a, b) for a in dq for b in dq if a < b and a.is_adjacent(b)]
+            pairs = [p for p in padj if rng.random() < 0.75] or padj[:1]
+            names = SPEC_GATE_LISTS[(i + j) % 4] if rng.random() < 0.6 else sorted(rng.sample(PROTO_GATES, rng.randint(3, 8)))
+            cases.append((lay, dq, pairs, names))
+    return cases
+
+
+def spec_sweep_stream(ctx, mods, full):
+    """Devices built from DeviceSpecification protos, judged from the specification alone: reported qubits / couplings, one
+    representative operation per known valid_gates entry, a two-qubit gate of the specification on EVERY ordered pair of qubits
+    (and a qubit outside), whole circuits over all couplings; invalid specifications must be refused.  The Coq model
+    (Xform/DeviceSpec.v: device_of_spec) recomputes couplings and answers."""
+    cirq, cg = mods['cirq'], mods['cirq_google']
+    rng = ctx.rng
+    reps = spec_gate_representatives(mods)
+    stranger = cirq.GridQubit(7, 7)
+    shards = []
+    names_tab = []
+    name_id = lambda n: names_tab.index(n) if n in names_tab else (names_tab.append(n) or len(names_tab) - 1)
+    ords = {SYM: 'OrdSymmetric', SUBSET: 'OrdSubsetPermutation', 'UNSPECIFIED': 'OrdUnspecified', 'ASYMMETRIC': 'OrdAsymmetric'}
+    for lay, dq, pairs, gate_names in spec_sweep_cases(mods, rng, full):
+        target_sets = spec_target_sets(rng, lay, dq, pairs)
+        pairset, qubit_set = spec_couplings(target_sets), set(dq)
+        shown = show_spec(dq, target_sets, gate_names)
+        rec = dict(kind='device_spec', qubits=repr(dq), target_sets=repr(target_sets), gate_names=list(gate_names))
+        try:
+            device = proto_device(mods, dq, pairs, gate_names, target_sets)
+        except Exception as e:
+            ctx.count('device:spec:metadata', [lay, shown], True)
+            ctx.violation('device:grid:spec:refused', f'GridDevice.from_proto({shown}) raises {type(e).__name__}: {e} although the specification is valid'[:900], rec)
+            continue
+        prob = metadata_problem(device, qubit_set, pairset, target_sets)
+        ctx.count('device:spec:metadata', [lay, shown], len({n for n, o, t in target_sets if o == SYM and any(len(x) == 2 for x in t)} - {CONVENTIONAL}) > 0,
+                  sample=dict(layout=lay, spec=shown[:300], couplings_reported=len(device.metadata.qubit_pairs), couplings_listed=len(pairset)) if rng.random() < 0.2 else None)
+        if prob is not None:
+            ctx.violation(f'device:grid:spec:{prob[0]}', f'{prob[1]} (couplings = the two-element targets of every SYMMETRIC target set); device = GridDevice.from_proto({shown})'[:1200], rec)
+        # operations: (op, index of its representative)
+        ops = []
+        some_pair = sorted(rng.choice(sorted(map(sorted, pairset)))) if pairset else dq[:2]
+        for ri, (_, rep, _) in enumerate(reps):
+            ops.append((place_rep(cirq, rep, some_pair if rng.random() < 0.5 else some_pair[::-1]), ri))
+        two = [ri for ri, (_, rep, need) in enumerate(reps) if any(n in gate_names for n in need) and cirq.num_qubits(rep[0] if isinstance(rep, tuple) else rep) == 2
+               and not isinstance(rep, tuple) and not isinstance(rep, (cirq.MeasurementGate, cirq.WaitGate))]
+        var = [ri for ri, (_, rep, need) in enumerate(reps) if any(n in gate_names for n in need) and isinstance(rep, (cirq.MeasurementGate, cirq.WaitGate)) and cirq.num_qubits(rep) == 2]
+        one = [ri for ri, (_, rep, need) in enumerate(reps) if any(n in gate_names for n in need) and cirq.num_qubits(rep[0] if isinstance(rep, tuple) else rep) == 1]
+        for a, b in itertools.permutations(dq + [stranger], 2):
+            for ri in two[:2] + var[:1]:
+                ops.append((place_rep(cirq, reps[ri][1], [a, b]), ri))
+        for a in dq + [stranger]:
+            for ri in one[:2]:
+                ops.append((place_rep(cirq, reps[ri][1], [a]), ri))
+        cnot = len(reps) - 1
+        for p in sorted(map(sorted, pairset))[:3]:
+            ops.append((cirq.CNOT(*p), cnot))
+        d = Describer(cirq)
+        qt = QubitTable()
+        try:
+            gterm = d.gateset(device.metadata.gateset)
+            model = True
+        except Unmodelled:
+            gterm, model = '(mkGS [] true [])', False
+            ctx.cov['device_specs_judged_without_model'] = ctx.cov.get('device_specs_judged_without_model', 0) + 1
+        sterm = (f'(mkSpec {gates.nlist([qt(q) for q in dq])} [' +
+                 '; '.join(f'mkTS {name_id(n)} {ords[o]} [{"; ".join(gates.nlist([qt(q) for q in t]) for t in ts)}]' for n, o, ts in target_sets) + f'] {gterm})')
+        rows = [f'spec_matches SPEC {gates.nlist([qt(q) for q in sorted(device.metadata.qubit_set)])} '
+                f'[{"; ".join(f"({qt(a)}, {qt(b)})%nat" for a, b in (tuple(sorted(p)) for p in sorted(device.metadata.qubit_pairs, key=sorted)))}]']
+        meta = [f'{shown}: the device reports qubits / couplings other than device_of_spec of the model']
+        accepted = []
+        for op, ri in ops:
+            got = device_answer(lambda: device.validate_operation(op))
+            want, why = spec_statement(cirq, reps, gate_names, op, ri, qubit_set, pairset)
+            ctx.count('device:spec:operation', [shown, repr(op)], len(op.qubits) == 2)
+            if got is not want:
+                sets_with = [repr(n) for n, o, ts in target_sets if o == SYM and any(frozenset(t) == frozenset(op.qubits) for t in ts)]
+                sig = (f'device:grid:spec:gate:{reps[ri][0].replace(" ", "-")}:accepts' if why == 'gate not specified'
+                       else f'device:grid:spec:{"accepts" if got is True else "rejects"}:{why.replace(" ", "-")}')
+                ctx.violation(sig, (f'validate_operation({op!r}) {"accepts" if got is True else "rejects (" + str(got) + ")"} although by the specification the operation is: {why}'
+                                    + (f' (gate {reps[ri][2]} is a valid gate, the qubits are valid qubits' + (f', the pair is listed in the SYMMETRIC target set {", ".join(sets_with)})' if sets_with else ')') if want else '')
+                                    + f'; device = GridDevice.from_proto({shown})')[:1200],
+                              dict(rec, op=repr(op), rep=ri))
+            if got is True:
+                accepted.append(op)
+            if model:
+                rows.append(f'Bool.eqb (device_accepts DEV (mkDop {d.op(op)} {gates.nlist([qt(q) for q in op.qubits])} true)) {"true" if want else "false"}')
+                meta.append(f'{shown}: the model of the specified device disagrees with the statement for {op!r} ({why})')
+        # whole circuits: a specified two-qubit gate on every coupling (both orders) is accepted; with one more operation on a pair that is no coupling it is not
+        if two and pairset:
+            non = [(a, b) for a in dq for b in dq if a != b and frozenset((a, b)) not in pairset]
+            g2 = reps[two[0]][1]
+            every = [g2.on(*(sorted(p) if i % 2 else sorted(p)[::-1])) for i, p in enumerate(sorted(pairset, key=sorted))]
+            for label, cops_, want in [('every coupling', every, True)] + ([('every coupling and one pair that is no coupling', every + [g2.on(*rng.choice(non))], False)] if non else []):
+                circ = cirq.Circuit(cops_, strategy=cirq.InsertStrategy.NEW if rng.random() < 0.5 else cirq.InsertStrategy.EARLIEST)
+                got = device_answer(lambda: device.validate_circuit(circ))
+                ctx.count('device:spec:circuit', [shown, repr(circ)], True)
+                if got is not want:
+                    ctx.violation(f'device:grid:spec:circuit:{"accepts" if got is True else "rejects"}',
+                                  f'validate_circuit {"accepts" if got is True else "rejects (" + str(got) + ")"} the circuit {[repr(o) for o in cops_]} ({label}; gate {reps[two[0]][0]} is a valid gate); device = GridDevice.from_proto({shown})'[:1200],
+                                  dict(rec, ops=[repr(o) for o in cops_]))
+        shards.append((f'Definition SPEC := {sterm}.\nDefinition DEV := match device_of_spec SPEC with Some d => d | None => mkDev (mkGS [] true []) [] [] PairsNone false end.\n'
+                       'Definition checks : list bool := [\n' + ';\n'.join(rows) + '].\nEval vm_compute in failing (fun b => b) checks.\n', meta))
+    # specifications the documentation of from_proto calls invalid must be refused with ValueError; the model refuses the ones it can express
+    q = [cirq.GridQubit(0, c) for c in range(3)]
+    invalid = [('a valid qubit id that is not of the form <int>_<int>', dict(qubits=q, sets=[(CONVENTIONAL, SYM, [(q[0], q[1])])], raw=['0_0', '0_1', 'q2']), None),
+               ('a target naming a qubit that is no valid qubit', dict(qubits=q[:2], sets=[(rng.choice(OTHER_NAMES), SYM, [(q[0], q[1]), (q[1], q[2])])], raw=None), f'mkSpec {gates.nlist([0, 1])} [mkTS 0 OrdSymmetric [{gates.nlist([0, 1])}; {gates.nlist([1, 2])}]] (mkGS [] true [])'),
+               ('a symmetric target with a repeated qubit', dict(qubits=q, sets=[(CONVENTIONAL, SYM, [(q[0], q[1])]), ('more', SYM, [(q[2], q[2])])], raw=None), f'mkSpec {gates.nlist([0, 1, 2])} [mkTS 0 OrdSymmetric [{gates.nlist([0, 1])}]; mkTS 1 OrdSymmetric [{gates.nlist([2, 2])}]] (mkGS [] true [])')]
+    inv_rows, inv_meta = [], []
+    for label, sp, term in invalid:
+        got = device_answer(lambda: cg.GridDevice.from_proto(build_spec(mods, sp['qubits'], sp['sets'], ['cz', 'phased_xz', 'meas'], sp['raw'])))
+        ctx.count('device:spec:invalid', [label, repr(sp['sets'])], True)
+        if got is not False:
+            ctx.violation('device:grid:spec:invalid-not-refused', f'GridDevice.from_proto of a specification with {label} ({show_spec(sp["qubits"], sp["sets"], ["cz", "phased_xz", "meas"])}, raw ids {sp["raw"]}) '
+                          f'{"returns a device" if got is True else "raises " + str(got)} instead of raising ValueError', dict(kind='device_spec_invalid', label=label))
+        if term is not None:
+            inv_rows.append(f'match device_of_spec ({term}) with None => true | Some _ => false end')
+            inv_meta.append(f'the model accepts a specification with {label}')
+    shards.append(('Definition checks : list bool := [\n' + ';\n'.join(inv_rows) + '].\nEval vm_compute in failing (fun b => b) checks.\n', inv_meta))
+    pre = GS_PRE + 'From VF Require Import Xform.DeviceSpec.\n'
+    outs = coq.coq_eval_many([(f'c07s_{ctx.seed}_{i}', pre + text) for i, (text, _) in enumerate(shards)], workers=12)
+    for (text, meta), out in zip(shards, outs):
+        for idx in coq.parse_nat_list(coq.parse_evals(out)[0]):
+            ctx.mark_broken('correspondence:device-spec-model', meta[idx][:700])
 
 
 def mapping_manager_stream(ctx, mods, n_cases):
@@ -2108,7 +2404,13 @@ def run(ctx):
                 'four fixed gatesets with tag-dependent families (with and without the complementary family) and five DeviceSpecification protos through GridDevice.from_proto '
                 '(FSimGateFamily specs are judged on the real objects only). validate_circuit (GridDevice, IonQ): for every family of the gateset a gate it takes, in every tag '
                 'variant the gateset mentions / untagged / unrelated tag / other qubits, all ordered pairs of variants, plus sequences of the singly judged operations; '
-                'accepted iff every operation is acceptable on its own.')
+                'accepted iff every operation is acceptable on its own. GridDevices are judged against what they were built from (the specification / the constructor arguments), '
+                'not against their own metadata, and metadata.qubit_set / qubit_pairs / nx_graph must report the same. device spec: DeviceSpecification protos in 11 shapes of valid_targets '
+                '(conventional name, other name, no name, couplings split over two symmetric sets with / without the conventional name / under the same name twice, an empty conventional set, '
+                'ids of a pair in either order, pairs listed twice, measurement groups and one- / three-qubit symmetric targets beside the couplings, measurement groups first) on a fixed 2x3 patch '
+                'and a drawn patch each, valid_gates lists in rotation; couplings = the two-element targets of every SYMMETRIC target set (device.proto); one representative operation per '
+                'valid_gates entry, a specified two-qubit gate on EVERY ordered pair of qubits and a qubit outside, whole circuits over all couplings; the three documented kinds of invalid '
+                'specification must raise ValueError; non-trivial = a coupling set that is not the conventionally named one / a two-qubit operation.')
     ctx.assumptions += ['float tolerance 2^-20 (~1e-6) for unitaries up to global phase', 'operations enter the model through their own cirq.unitary (C03/C04 tie those to the documented matrices)']
     ctx.set_obligations(coq.compile_props('C07'))
     n = 1 if ctx.tier == 'quick' else 10
@@ -2120,6 +2422,7 @@ def run(ctx):
     routing_stream(ctx, mods, checks, 90 * n)
     mapping_manager_stream(ctx, mods, 60 * n)
     device_stream(ctx, mods, 28 * n, 40)
+    spec_sweep_stream(ctx, mods, full=ctx.tier != 'quick')
     evaluate(ctx, mods, checks, confirm)
     # translation validation: programs = compiler and router runs whose real output was validated
     ctx.cov['programs'] = sum(v for k, v in ctx.streams.items() if (k.startswith('compile:') or k.startswith('route:')) and not k.endswith(':relation'))
@@ -2147,7 +2450,8 @@ def replay_device(mods, data):
         if data.get('named'):
             device = getattr(cg, data['named'])
         elif data.get('proto_gates'):
-            device = proto_device(mods, qubits, [tuple(sorted(p)) for p in pairs], data['proto_gates'])
+            device = proto_device(mods, qubits, [tuple(sorted(p)) for p in pairs], data['proto_gates'],
+                                  py_eval(mods, data['target_sets']) if data.get('target_sets') else None)
         else:
             gateset = py_eval(mods, data['gateset'])
             device = cg.GridDevice(cirq.GridDeviceMetadata(qubit_pairs=[tuple(sorted(p)) for p in pairs], gateset=gateset, all_qubits=qubits))
@@ -2184,6 +2488,36 @@ def replay_device(mods, data):
     return got is want
 
 
+def replay_device_spec(mods, data):
+    cirq, cg = mods['cirq'], mods['cirq_google']
+    qubits = py_eval(mods, data['qubits'])
+    if data['kind'] == 'device_metadata':
+        pairs = py_eval(mods, data['pairs'])
+        device = cg.GridDevice(cirq.GridDeviceMetadata(qubit_pairs=pairs, gateset=cirq.Gateset(cirq.CZ), all_qubits=qubits))
+        pairset = {frozenset(p) for p in pairs}
+    else:
+        target_sets = py_eval(mods, data['target_sets'])
+        device = proto_device(mods, qubits, None, data['gate_names'], target_sets)
+        pairset = spec_couplings(target_sets)
+    prob = metadata_problem(device, set(qubits), pairset)
+    print(f'replay: reported qubits / couplings: {prob[1] if prob else "as specified"}')
+    ok = prob is None
+    reps = spec_gate_representatives(mods)
+    if 'op' in data:
+        op = py_eval(mods, data['op'])
+        got = device_answer(lambda: device.validate_operation(op))
+        want, why = spec_statement(cirq, reps, data['gate_names'], op, data['rep'], set(qubits), pairset)
+        print(f'replay: validate_operation({op!r}) -> {got}; the specification says {why}')
+        ok = ok and got is want
+    if 'ops' in data:
+        ops = [py_eval(mods, t) for t in data['ops']]
+        got = device_answer(lambda: device.validate_circuit(cirq.Circuit(ops, strategy=cirq.InsertStrategy.NEW)))
+        want = all(len(o.qubits) != 2 or frozenset(o.qubits) in pairset for o in ops)
+        print(f'replay: validate_circuit -> {got}; every operation on a listed coupling: {want}')
+        ok = ok and got is want
+    return ok
+
+
 def replay(ctx, data):
     mods = env.import_cirq(('cirq_google', 'cirq_ionq', 'cirq_aqt', 'cirq_pasqal'))
     if data.get('kind') == 'broken':
@@ -2191,6 +2525,11 @@ def replay(ctx, data):
         return False
     if data.get('kind') == 'device':
         return replay_device(mods, data)
+    if data.get('kind') in ('device_spec', 'device_metadata'):
+        return replay_device_spec(mods, data)
+    if data.get('kind') == 'device_spec_invalid':
+        print('replay: re-run `VERIF_SEED=%s ./check C07` (fixed invalid specification: %s)' % (data.get('seed'), data.get('label')))
+        return False
     if data.get('kind') == 'cop_membership':
         cirq = mods['cirq']
         gsets = {t: make_target(mods, t) for t in TARGETS}
